@@ -1086,6 +1086,16 @@ def _headers(ctx) -> None:
         if els and all(any(gi.loops[L].iter == DN for L in e.loops) for e in els):
             rows.append((obj, els))
     rows = [r for r in rows if gi.objs[r[0][1]].kind in ("list", "listcomp")]
+    # ... that become header rows: handed to append / insert / extend of the result, or returned (a helper list such as the names
+    # without the elision marker, used only to decide WHETHER the row is shown, is not one)
+    def _is_row(obj) -> bool:
+        for e in gi.events:
+            if e.kind == "call" and e.term[1][0] == "attr" and e.term[1][2] in ("append", "insert", "extend") and obj in e.term[2]:
+                return True
+            if e.kind == "return" and any(x == obj for x in subterms(e.term)):
+                return True
+        return False
+    rows = [r for r in rows if _is_row(r[0])]
     if not rows:
         problems.append("no header row is built from the display names")
     for obj, els in rows:
